@@ -49,7 +49,7 @@ def mc_search(ctx):
     games, st, gen, wfail = searchgames.run_family(5 if ctx.tier == "quick" else 60, ctx.seed)
     ctx.states += st
     ctx.transitions += gen
-    ctx.extra["design_level_family"] = "%d random abstract games: full key exact under every interleaving (%d states); the (hash, alpha, beta) key is inexact on %d of them" % (games, st, wfail)
+    ctx.extra["design_level_family"] = "%d random abstract games: full key exact under every interleaving (%d states); broken keys rejected on some of them: %s" % (games, st, wfail)
     # the locking discipline: no interleaving of the lock acquisitions deadlocks (both RwLock policies)
     for pol in ("fair", "writer-preferring"):
         cfg = tlc.write_cfg("searchlocks_%d.cfg" % os.getpid(), 'SPECIFICATION Spec\nCONSTANTS Tasks = {1, 2, 3}\n Rounds = 2\n Policy = "%s"\n Upgrade = FALSE\nINVARIANT Exclusion\nPROPERTY Terminates\nCHECK_DEADLOCK TRUE\n' % pol)
@@ -224,7 +224,7 @@ def c08(ctx):
     quick = ctx.tier == "quick"
     mc_search(ctx)
     if quick:
-        plan = [(3, 40, 8, 4, 4, "d3", None), (4, 10, 4, 3, 3, "d4", None),
+        plan = [(3, 36, 10, 6, 4, "d3", None), (4, 10, 4, 4, 3, "d4", None), (2, 10, 10, 8, 3, "d2seq", None),
                 # lone king against a few men: stalemates and mates within the horizon (leaf verdict scoring)
                 (2, 40, 6, 3, 2, "bare2", "bare"), (3, 30, 6, 3, 2, "bare3", "bare"),
                 # roots built backwards from stalemates / mates: the terminal position sits exactly on the horizon
